@@ -9,6 +9,7 @@ import (
 	"fmt"
 	"math/rand"
 	"strconv"
+	"time"
 
 	"golang.org/x/net/http2/hpack"
 
@@ -846,3 +847,63 @@ func runSequence(limit uint32, legal bool, seed int64, st *stats) *conn {
 }
 
 func (w witness) String() string { return fmt.Sprintf("%s %s %s", w.Kind, w.State, w.Variant) }
+
+// runQueued: the connection is filled to the limit, the client resets z >= 2 of its streams (their handlers
+// keep running: "zombies") and opens z new ones, which the server accepts and queues. The zombies then return
+// ONE AT A TIME: each return may start exactly one queued handler - the handlers running at any time never
+// exceed the advertised limit (observed in the handler itself). Added after seeded change C13-J.
+func runQueued(limit uint32, seed int64, st *stats) *conn {
+	rng := rand.New(rand.NewSource(seed))
+	c := newConn(limit, false, st)
+	c.manualZombies = true
+	c.start(defaultSettings)
+	next := uint32(1)
+	fresh := func() uint32 { id := next; next += 2; return id }
+	var ids []uint32
+	for i := 0; i < int(limit) && !c.over(); i++ {
+		id := fresh()
+		ids = append(ids, id)
+		c.exec(frameStep("fill-to-the-limit", getES(id)))
+	}
+	z := 2
+	if limit > 2 {
+		z += rng.Intn(int(limit) - 1)
+	}
+	for i := 0; i < z && !c.over(); i++ {
+		c.exec(frameStep("client-rst", h2peer.RawFrame(3, 0, ids[i], u32(8))))
+	}
+	var queued []uint32
+	for i := 0; i < z && !c.over(); i++ {
+		id := fresh()
+		queued = append(queued, id)
+		c.exec(frameStep("request-queued-behind-zombies", getES(id)))
+	}
+	startedOf := func() int {
+		c.mu.Lock()
+		defer c.mu.Unlock()
+		n := 0
+		for _, id := range queued {
+			if h := c.hs[id]; h != nil && h.nStarted > 0 {
+				n++
+			}
+		}
+		return n
+	}
+	for i := 0; i < z && !c.over(); i++ {
+		c.exec(Step{Op: "release", SID: ids[i]})
+		// the zombie's return reaches the serve loop a moment later: wait for the queued handler it frees
+		for dl := time.Now().Add(watchdog); startedOf() < i+1 && time.Now().Before(dl); {
+			time.Sleep(200 * time.Microsecond)
+		}
+		c.exec(frameStep("fence-after-a-zombie-returned", h2peer.RawFrame(6, 0, 0, []byte("c13queue"))))
+		st.zombieReturns++
+	}
+	for _, id := range append(ids[z:], queued...) {
+		if !c.over() {
+			c.exec(Step{Op: "release", SID: id})
+		}
+	}
+	p := fresh()
+	c.finish(p, getES(p))
+	return c
+}
